@@ -13,14 +13,14 @@ T = {
     'ptr': 'int*', 'sz': 'std::size_t',
     'pod12': 'sim::Pod<12>', 'pod5': 'sim::Pod<5>',
     'trk9': 'sim::Tracked<9>', 'trk12': 'sim::Tracked<12>', 'trk24': 'sim::Tracked<24>',
-    'mo9': 'sim::TrackedMO<9>', 'mo12': 'sim::TrackedMO<12>',
+    'mo9': 'sim::TrackedMO<9>', 'mo12': 'sim::TrackedMO<12>', 'thr9': 'sim::TrackedThrow<9>', 'thr12': 'sim::TrackedThrow<12>',
     'str': 'std::string', 'up': 'std::unique_ptr<int>', 'pr': 'std::pair<std::uint32_t, std::uint32_t>',
 }
 SIZEOF = {'u8': 1, 'u16': 2, 'u32': 4, 'u64': 8, 'i32': 4, 'ch': 1, 'by': 1, 'f32': 4, 'f64': 8, 'ptr': 8, 'sz': 8,
-          'pod12': 12, 'pod5': 5, 'trk9': 9, 'trk12': 12, 'trk24': 24, 'mo9': 9, 'mo12': 12, 'str': 32, 'up': 8, 'pr': 8}
+          'pod12': 12, 'pod5': 5, 'trk9': 9, 'trk12': 12, 'trk24': 24, 'mo9': 9, 'mo12': 12, 'thr9': 9, 'thr12': 12, 'str': 32, 'up': 8, 'pr': 8}
 INTEGRAL = {'u8', 'u16', 'u32', 'u64', 'sz'}
-NONTRIVIAL = {'trk9', 'trk12', 'trk24', 'mo9', 'mo12', 'str', 'up'}
-TRACKED = {'trk9', 'trk12', 'trk24', 'mo9', 'mo12'}
+NONTRIVIAL = {'trk9', 'trk12', 'trk24', 'mo9', 'mo12', 'thr9', 'thr12', 'str', 'up'}
+TRACKED = {'trk9', 'trk12', 'trk24', 'mo9', 'mo12', 'thr9', 'thr12'}
 MOVEONLY = {'mo9', 'mo12', 'up'}
 REAL = {'str', 'up'}
 
@@ -122,6 +122,11 @@ def curated():
     a(make('var_bytes', [P('p', 'u8'), P('v', 'u8')], 'ae'))
     a(make('var_low_then_al', [P('p', 'u8'), P('v', 'u8'), P('p', 'u32', 4), P('p', 'u16')], 'none'))
     a(make('var_u16_al', [P('p', 'u16'), P('v', 'u16', 8), P('p', 'u8')], 'alld'))
+    # trailing parameters after a low-aligned VaryingSize whose total size is a multiple of the element alignment
+    # (the padding up to the next element is then 0 only if the span happens to end aligned)
+    a(make('var_al_then_low', [P('p', 'u32', 4), P('v', 'u8'), P('p', 'u32')], 'none'))
+    a(make('var_al8_then_low', [P('p', 'sz', 8), P('v', 'u16'), P('p', 'u64')], 'ae'))
+    a(make('var_two_then_low', [P('p', 'u8'), P('v', 'u8'), P('p', 'u16', 4), P('v', 'f64'), P('p', 'i32'), P('p', 'i32')], 'noned'))
     a(make('var_then_plain_al', [P('p', 'u16'), P('v', 'u16'), P('p', 'u32'), P('p', 'u32', 4), P('p', 'u8')], 'none'))
     # mixed
     a(make('mix_al', [P('f', 'f32', 16), P('p', 'u32'), P('p', 'u8', 8), P('v', 'u16', 8), P('p', 'ch')], 'ae'))
@@ -136,6 +141,9 @@ def curated():
     a(make('str_var', [P('p', 'sz', 8), P('v', 'str'), P('p', 'str')], 'none'))
     a(make('up_fx', [P('f', 'up'), P('p', 'up')], 'ae'))
     a(make('up_var', [P('p', 'sz', 8), P('v', 'up'), P('p', 'up')], 'none'))
+    # value types whose copy constructor may throw (fault kind F10, armed only while copies of shared objects are made)
+    a(make('thr_fx', [P('f', 'thr12'), P('p', 'u16'), P('p', 'thr9')], 'none'))
+    a(make('thr_var', [P('p', 'u32'), P('v', 'thr12'), P('p', 'thr9')], 'all'))
     # no trivially copyable parameter at all: trivially constructible but not trivially copyable (std::pair) next to
     # non-trivial ones
     a(make('pr_fx_trk', [P('f', 'pr'), P('p', 'trk9')], 'none'))
